@@ -750,3 +750,47 @@ impl MemBalancerTrigger {
         self.current_heap_pages.store(new_heap, Ordering::Relaxed);
     }
 }
+
+/// Hooks for the external verification harness.
+#[cfg(feature = "mmtk_verif")]
+pub mod verif_hooks {
+    use super::*;
+
+    /// A `MemBalancerTrigger` that can be stepped with synthetic GC statistics.
+    pub struct VerifMemBalancer(MemBalancerTrigger);
+
+    impl VerifMemBalancer {
+        /// Same as the constructor used for `DynamicHeapSize(min, max)`.
+        pub fn new(min_heap_pages: usize, max_heap_pages: usize) -> Self {
+            Self(MemBalancerTrigger::new(min_heap_pages, max_heap_pages))
+        }
+        /// `on_pending_allocation`.
+        pub fn on_pending_allocation(&self, pages: usize) {
+            self.0.pending_pages.fetch_add(pages, Ordering::SeqCst);
+        }
+        /// What `on_gc_end` does after the statistics of one GC were collected: feed the
+        /// statistics and compute the new heap limit, then clear the pending pages.
+        pub fn gc_end(
+            &self,
+            live: usize,
+            extra_reserve: usize,
+            allocation_pages: f64,
+            allocation_time: f64,
+            collection_pages: f64,
+            collection_time: f64,
+        ) {
+            self.0.access_stats(|stats| {
+                stats.allocation_pages = allocation_pages;
+                stats.allocation_time = allocation_time;
+                stats.collection_pages = collection_pages;
+                stats.collection_time = collection_time;
+                self.0.compute_new_heap_limit(live, extra_reserve, stats);
+            });
+            self.0.pending_pages.store(0, Ordering::SeqCst);
+        }
+        /// The current heap size in pages.
+        pub fn current_heap_pages(&self) -> usize {
+            self.0.current_heap_pages.load(Ordering::Relaxed)
+        }
+    }
+}
